@@ -173,6 +173,27 @@ example :
     setInfo [] [([], .dir), ([[97]], .file [1]), ([infoPfx ++ [97]], .file []), ([[97] ++ incSfx], .file [3])] none [97] none (some [46, 46, 47, 122]) =
       ([([], .dir), ([[122]], .file [1]), ([infoPfx ++ [122]], .file []), ([[122] ++ incSfx], .file [3])], .ok) := by decide
 
+/-- A folder rename carries the folder's comment (after `fix:` 500a006): the folder is bound at the new
+    name and its `.info_` side file at `.info_<new name>` exactly as it was (absent stays absent);
+    nothing is left under the old names; no other path changes.  Hypotheses: the rename itself
+    succeeded, the names differ and neither is the other's `.info_` name, `.info_<new name>` is free. -/
+theorem folder_rename_carries_comment (root : Path) (fs fs' : FS) (pf : Option Bytes) (d : Path) (n n' : Comp) (nn : Bytes)
+    (ht' : target root pf nn = .ok (d ++ [n']))
+    (hok : renameStep root fs pf (d ++ [n]) true (some nn) = (fs', .ok))
+    (hren : (FS.rename fs (d ++ [n]) (d ++ [n'])).1 = .ok)
+    (hnn : n ≠ n') (h1 : infoPfx ++ n ≠ n') (h2 : infoPfx ++ n' ≠ n)
+    (hfree : lookup fs (d ++ [infoPfx ++ n']) = none) :
+    lookup fs' (d ++ [n']) = lookup fs (d ++ [n]) ∧
+    lookup fs' (d ++ [infoPfx ++ n']) = lookup fs (d ++ [infoPfx ++ n]) ∧
+    lookup fs' (d ++ [n]) = none ∧ lookup fs' (d ++ [infoPfx ++ n]) = none ∧
+    (∀ x, ¬ d ++ [n] <+: x → ¬ d ++ [n'] <+: x → ¬ d ++ [infoPfx ++ n] <+: x → ¬ d ++ [infoPfx ++ n'] <+: x →
+      lookup fs' x = lookup fs x) :=
+  folder_rename_carries root fs fs' pf d n n' nn ht' hok hren hnn h1 h2 hfree
+
+example :
+    setInfo [] [([], .dir), ([[100]], .dir), ([[100], [120]], .file [1]), ([infoPfx ++ [100]], .file [])] none [100] none (some [101]) =
+      ([([], .dir), ([[101]], .dir), ([[101], [120]], .file [1]), ([infoPfx ++ [101]], .file [])], .ok) := by decide
+
 /-- Alias = symlink to the named path, on a free name. -/
 theorem alias_is_symlink (root : Path) (fs : FS) (pf : Option Bytes) (name : Bytes) (newPf : Option Bytes) (src dst : Path) (fs' : FS)
     (hs : target root pf name = .ok src) (hd : target root newPf name = .ok dst)
